@@ -1709,6 +1709,59 @@ def rule_r22(prog, res):
                     'per-endpoint ones every reader validates with' % keys)
 
 
+def rule_r23(prog, res):
+    res.rule('R23', 'the validate_freq switch is read from the class that is '
+             'being read, not from the item type of an array (primitives do '
+             'not declare it: the per-protocol attribute table answers None)')
+    n = 0
+    for f in prog.all_functions():
+        if not f.module.name.startswith('spyne.protocol.'):
+            continue
+        items = set()
+        for a in walk_no_defs(f.node):
+            if isinstance(a, ast.Assign) and isinstance(
+                    a.targets[0], (ast.Tuple, ast.List)) and len(
+                    a.targets[0].elts) == 1 and isinstance(
+                    a.targets[0].elts[0], ast.Name) and \
+                    unparse(a.value).endswith('._type_info.values()'):
+                items.add(a.targets[0].elts[0].id)
+        if not items:
+            continue
+        reads = [x for x in walk_no_defs(f.node) if isinstance(
+            x, ast.Attribute) and x.attr == 'validate_freq' and
+            isinstance(x.ctx, ast.Load)]
+        for x in reads:
+            n += 1
+            recv = [x.value]
+            if isinstance(x.value, ast.Name):
+                # the closest assignment above the read
+                prev = [a for a in walk_no_defs(f.node)
+                        if isinstance(a, ast.Assign) and any(
+                            isinstance(t, ast.Name) and t.id == x.value.id
+                            for t in a.targets) and a.lineno <= x.lineno]
+                recv = [max(prev, key=lambda a: a.lineno).value] if prev \
+                    else []
+            bad = [r for r in recv if isinstance(r, ast.Call) and
+                   call_name(r) == 'get_cls_attrs' and r.args and
+                   isinstance(r.args[-1], ast.Name) and
+                   r.args[-1].id in items]
+            where = '%s:%d' % (f.module.relpath, x.lineno)
+            res.ob('R23', where, '%s reads validate_freq from %s' % (
+                f.qualname, [unparse(r) for r in recv]),
+                'VIOLATED' if bad else 'ok')
+            if bad:
+                res.finding('R23', '%s|validate-freq-of-item-type' %
+                            f.qualname, where, '%s decides whether to count '
+                            'the items of an array from the attributes of '
+                            'the item type (%s): only complex classes '
+                            'declare validate_freq, so for Array(Integer('
+                            'max_occurs=2)) the switch reads as None and the '
+                            'occurrence check is skipped, while the XML '
+                            'readers refuse the same request' % (
+                                f.qualname, unparse(bad[0])))
+    res.floor('R23', 'validate_freq reads in array readers', n, 1)
+
+
 def run(prog, res, tier):
     res.run_rule(rule_r1, prog, res)
     res.run_rule(rule_r2, prog, res)
@@ -1733,6 +1786,7 @@ def run(prog, res, tier):
     res.run_rule(rule_r20, prog, res)
     res.run_rule(rule_r21, prog, res)
     res.run_rule(rule_r22, prog, res)
+    res.run_rule(rule_r23, prog, res)
 
 
 _X = 'spyne/protocol/xml.py'
@@ -1746,6 +1800,14 @@ _I = 'spyne/protocol/_inbase.py'
 _SI = 'spyne/protocol/dictdoc/simple.py'
 
 MUTANTS = [
+    Mutant('array-freq-switch-from-item-type', 'R23', 'fire',
+           'spyne/protocol/dictdoc/hier.py',
+           in_func('HierDictDocument._doc_to_object',
+                   "                                   and self.get_cls_attrs"
+                   "(cls).validate_freq:\n",
+                   "                            and self.get_cls_attrs"
+                   "(serializer).validate_freq:\n"),
+           'validate-freq-of-item-type'),
     Mutant('index-map-keyed-by-member-name', 'R13', 'fire', _SI,
            in_func('SimpleDictDocument.simple_dict_to_object',
                    "_m = idxmap[id(ninst)]", "_m = idxmap[pkey]"),
